@@ -122,7 +122,7 @@ VARIANTS = {("cmd", "missing"): ("missing", 8), ("cmd", "null"): ("null", 3), ("
 def variant_site(sc):
     """(site, n) when the scenario is the all-good base except for ONE dimension whose class has several concrete variants."""
     diff = [k for k in MCBASE if sc.get(k) != MCBASE[k]]
-    if len(diff) == 1 and (diff[0], sc[diff[0]]) in VARIANTS:
+    if len(diff) == 1 and isinstance(sc[diff[0]], str) and (diff[0], sc[diff[0]]) in VARIANTS:
         return VARIANTS[(diff[0], sc[diff[0]])]
     return None
 
